@@ -596,6 +596,7 @@ fn limb_op(op: &str, a: &[&str]) -> Option<String> {
 }
 
 // ---- hook ops: crate-internal functions reached through `crypto_bigint::verif_hooks`
+#[cfg(crypto_bigint_verif)]
 fn hook_fixed<const N: usize>(op: &str, a: &[&str]) -> Option<String> {
     use crypto_bigint::verif_hooks as h;
     let x = arg!(a.first().and_then(|s| uint::<N>(s)));
@@ -617,6 +618,7 @@ fn hook_fixed<const N: usize>(op: &str, a: &[&str]) -> Option<String> {
         _ => return None,
     })
 }
+#[cfg(crypto_bigint_verif)]
 fn hook_boxed(op: &str, a: &[&str]) -> Option<String> {
     use crypto_bigint::verif_hooks as h;
     let n = arg!(a.first().and_then(|s| dec(s)));
@@ -661,4 +663,16 @@ pub fn dispatch(op: &str, a: &[&str]) -> Option<String> {
         }
         _ => None,
     }
+}
+
+// ---- the same entry points when the crate is built WITHOUT `--cfg crypto_bigint_verif` (fallback build of the runner when the
+// hook forwarders of /repo no longer compile, e.g. after a refactor of an internal signature): hook operations answer
+// `hook-unavailable` and are skipped by the runner; the public operations still run.
+#[cfg(not(crypto_bigint_verif))]
+fn hook_fixed<const N: usize>(_op: &str, _a: &[&str]) -> Option<String> {
+    Some(crate::util::HOOK_UNAVAILABLE.to_string())
+}
+#[cfg(not(crypto_bigint_verif))]
+fn hook_boxed(_op: &str, _a: &[&str]) -> Option<String> {
+    Some(crate::util::HOOK_UNAVAILABLE.to_string())
 }
